@@ -468,6 +468,7 @@ func (s *Stream) ReadMessageHeader(header []byte) (err error) {
 		return er
 	}
 	s.readRequester.requestRead(len(header))
+	total := len(header)
 	for len(header) != 0 {
 		n, err := s.trReader.ReadMessageHeader(header)
 		header = header[n:]
@@ -475,7 +476,7 @@ func (s *Stream) ReadMessageHeader(header []byte) (err error) {
 			err = nil
 		}
 		if err != nil {
-			if n > 0 && err == io.EOF {
+			if len(header) < total && err == io.EOF {
 				err = io.ErrUnexpectedEOF
 			}
 			return err
